@@ -3,16 +3,20 @@
 //!   op ::= (new) | (add <obj>) | (set (i g) <obj>) | (del (i g)) | (rmannot (i g)) | (prune)
 //!        | (delpages n...) | (renumber) | (compress) | (decompress) | (ccs (i g) xC) | (cpc (i g) xC) | (apc (i g) xC)
 //!        | (atpc (i g) (op xOP operand...)...) | (gocr (i g)) | (addx (i g) xNAME (i g)) | (addgs (i g) xNAME (i g))
-//!        | (content (i g))
+//!        | (content (i g)) | (save table|stream) | (bm (t cp...) fmt (c xR xG xB) (i g) parent|none) | (outline)
 //! A failure whose cause is a recorded known finding is tagged [<finding id>]; the tag is decided by
 //! evaluating the finding's class predicate on the document BEFORE the call, not by the symptom.
-//! Result: (trace (<out> <doc-or-=>)...) -- what each call returned and the canonical dump of the
-//!   document after it ("=" when the dump equals the previous one).
+//! Result: (trace (<out> <dump-or-=>)...) -- what each call returned and the canonical dump of the
+//!   document after it ("=" when the dump equals the previous one); once a bookmark exists the dump is
+//!   (st <doc> (bm max_bookmark_id (roots ...) (tbl (id (i g) (children...))...))).
+//!   (save ..) on a document whose max_id exceeds SAVE_MAX is not run (both sides answer `skipped`): write_xref /
+//!   create_xref_steam loop over every number up to max_id.
 //! Verdict: the invariants of the property evaluated directly on the implementation after EVERY
 //!   step, by code that shares nothing with the model (own reachability, own "remove every
 //!   reference" function, order-insensitive dictionary comparison).
 use lopdf::content::{Content, Operation};
-use lopdf::{Dictionary, Document, Object, ObjectId};
+use lopdf::xref::XrefType;
+use lopdf::{Bookmark, Dictionary, Document, Object, ObjectId};
 use lvh::conv::*;
 use lvh::sx::Sx;
 use std::collections::{BTreeMap, BTreeSet};
@@ -37,7 +41,12 @@ enum Op {
     AddX(ObjectId, Vec<u8>, ObjectId),
     AddGs(ObjectId, Vec<u8>, ObjectId),
     Content(ObjectId),
+    Save(bool),
+    Bm { title: String, format: u32, color: [f32; 3], page: ObjectId, parent: Option<u32> },
+    Outline,
 }
+
+const SAVE_MAX: u32 = 1_000_000;
 
 fn op_of_sx(x: &Sx) -> Option<Op> {
     let a = x.args();
@@ -69,6 +78,32 @@ fn op_of_sx(x: &Sx) -> Option<Op> {
         "addx" => Op::AddX(oid_of_sx(a.first()?)?, a.get(1)?.as_bytes()?, oid_of_sx(a.get(2)?)?),
         "addgs" => Op::AddGs(oid_of_sx(a.first()?)?, a.get(1)?.as_bytes()?, oid_of_sx(a.get(2)?)?),
         "content" => Op::Content(oid_of_sx(a.first()?)?),
+        "save" => Op::Save(match a.first()? { m if m.is_id("table") => false, m if m.is_id("stream") => true, _ => return None }),
+        "bm" => {
+            if a.len() != 5 {
+                return None;
+            }
+            let mut title = String::new();
+            for c in a[0].args() {
+                title.push(char::from_u32(c.as_u64()? as u32)?);
+            }
+            let c = a[2].args();
+            if c.len() != 3 {
+                return None;
+            }
+            let mut color = [0f32; 3];
+            for i in 0..3 {
+                color[i] = std::str::from_utf8(&c[i].as_bytes()?).ok()?.parse::<f32>().ok()?;
+            }
+            Op::Bm {
+                title,
+                format: a[1].as_u64()? as u32,
+                color,
+                page: oid_of_sx(&a[3])?,
+                parent: if a[4].is_id("none") { None } else { Some(a[4].as_u64()? as u32) },
+            }
+        }
+        "outline" => Op::Outline,
         _ => return None,
     })
 }
@@ -346,6 +381,46 @@ impl Check {
     }
 }
 
+/// canonical dump of the whole Document: the objects, trailer, max_id and (once there are any) the bookmark fields
+fn state_to_sx(doc: &Document) -> Sx {
+    if doc.bookmark_table.is_empty() {
+        return doc_to_sx(doc);
+    }
+    let mut tbl: Vec<_> = doc.bookmark_table.iter().collect();
+    tbl.sort_by_key(|(k, _)| **k);
+    Sx::tagged(
+        "st",
+        vec![
+            doc_to_sx(doc),
+            Sx::tagged(
+                "bm",
+                vec![
+                    Sx::num(doc.max_bookmark_id),
+                    Sx::tagged("roots", doc.bookmarks.iter().map(Sx::num).collect()),
+                    Sx::tagged(
+                        "tbl",
+                        tbl.iter().map(|(k, b)| Sx::L(vec![Sx::num(**k), oid_to_sx(b.page), Sx::L(b.children.iter().map(Sx::num).collect())])).collect(),
+                    ),
+                ],
+            ),
+        ],
+    )
+}
+
+/// how many outline items build_outline has to create: the bookmarks reachable from the roots, with multiplicity
+fn outline_items(doc: &Document, ids: &[u32], depth: usize) -> usize {
+    if depth > 4096 {
+        return 0;
+    }
+    ids.iter().map(|i| 1 + doc.bookmark_table.get(i).map(|b| outline_items(doc, &b.children, depth + 1)).unwrap_or(0)).sum()
+}
+
+fn same_bookmarks(a: &Document, b: &Document) -> bool {
+    a.max_bookmark_id == b.max_bookmark_id && a.bookmarks == b.bookmarks && a.bookmark_table.len() == b.bookmark_table.len()
+        && a.bookmark_table.iter().all(|(k, x)| b.bookmark_table.get(k).map(|y| x.children == y.children && x.page == y.page && x.title == y.title
+                                                                              && x.format == y.format && x.id == y.id).unwrap_or(false))
+}
+
 fn out_id(id: ObjectId) -> Sx {
     Sx::tagged("id", vec![oid_to_sx(id)])
 }
@@ -361,7 +436,7 @@ fn main() {
             _ => return (Sx::id("badcase"), "skip".into()),
         };
         let mut trace = vec![];
-        let mut prev = doc_to_sx(&doc).print();
+        let mut prev = state_to_sx(&doc).print();
         let mut ck = Check { fails: vec![] };
         for (n, op) in ops.iter().enumerate() {
             let before = doc.clone();
@@ -374,8 +449,78 @@ fn main() {
             let panicked = out.is_id("panic");
             // ---------------- verdicts ----------------
             ck.req(n, same_header(&before, &doc), || "version or binary mark changed".into());
+            if !matches!(op, Op::Bm { .. } | Op::Renumber) {
+                ck.req(n, same_bookmarks(&before, &doc), || "an operation other than add_bookmark / renumber_objects changed the bookmark fields".into());
+            }
             let mut in_domain = true;
             match op {
+                Op::Bm { .. } => {
+                    ck.req(n, changed(&before, &doc).is_empty() && before.trailer == doc.trailer && before.max_id == doc.max_id,
+                           || "add_bookmark changed objects, trailer or max_id".into());
+                    ck.req(n, panicked || (doc.max_bookmark_id == before.max_bookmark_id + 1 && doc.bookmark_table.len() == before.bookmark_table.len() + 1
+                                           && out.args().first().and_then(|x| x.as_u64()) == Some(doc.max_bookmark_id as u64)),
+                           || "add_bookmark did not hand out max_bookmark_id + 1".into());
+                }
+                Op::Outline => {
+                    ck.req(n, before.trailer == doc.trailer, || "build_outline changed the trailer".into());
+                    let ch = changed(&before, &doc);
+                    if panicked {
+                        ck.req(n, ch.is_empty() && before.max_id == doc.max_id, || "a panicking build_outline changed the document".into());
+                    } else {
+                        let root = out.args().first().and_then(oid_of_sx);
+                        ck.req(n, root.is_some() == !before.bookmarks.is_empty(), || "build_outline returned None although there are bookmarks (or Some without any)".into());
+                        ck.req(n, doc.max_id >= before.max_id, || "build_outline moved max_id backwards".into());
+                        if let Some(r) = root {
+                            ck.req(n, r == (before.max_id + 1, 0), || format!("build_outline returned {:?}, expected max_id + 1 = {}", r, before.max_id + 1));
+                            ck.req(n, matches!(doc.objects.get(&r), Some(Object::Dictionary(_))), || "build_outline: the returned id does not name a dictionary".into());
+                        } else {
+                            ck.req(n, ch.is_empty() && before.max_id == doc.max_id, || "build_outline without bookmarks changed the document".into());
+                        }
+                        if inv_before {
+                            // no existing object is overwritten: every object written is new, numbered above the old cursor
+                            for k in &ch {
+                                ck.req(n, !before.objects.contains_key(k), || format!("build_outline overwrote the existing object {:?}", k));
+                                ck.req(n, k.0 > before.max_id && k.1 == 0, || format!("build_outline wrote {:?}, not above the old max_id {}", k, before.max_id));
+                            }
+                            if root.is_some() {
+                                let want = 1 + 2 * outline_items(&before, &before.bookmarks, 0);
+                                ck.req(n, ch.len() == want, || format!("build_outline created {} objects, the bookmarks need {}", ch.len(), want));
+                                // the cursor ends at the last id handed out: every created number is <= max_id, and none is skipped
+                                ck.req(n, doc.max_id as u64 == before.max_id as u64 + ch.len() as u64,
+                                       || format!("build_outline created {} objects above max_id {} but left max_id at {} (the next allocation would collide / skip)", ch.len(), before.max_id, doc.max_id));
+                            }
+                            // the links between the created objects (Parent / Prev / Next / First / Last / A) name created objects
+                            for k in &ch {
+                                match doc.objects.get(k) {
+                                    Some(Object::Dictionary(d)) => {
+                                        for key in [&b"Parent"[..], b"Prev", b"Next", b"First", b"Last", b"A"] {
+                                            if let Ok(v) = d.get(key) {
+                                                ck.req(n, matches!(v, Object::Reference(r) if ch.contains(r)), || format!("outline object {:?}: /{} does not name an object build_outline created", k, String::from_utf8_lossy(key)));
+                                            }
+                                        }
+                                    }
+                                    _ => ck.req(n, false, || format!("build_outline created {:?}, not a dictionary", k)),
+                                }
+                            }
+                            ck.req(n, page_contents(&before) == page_contents(&doc), || "build_outline changed what a page shows".into());
+                        }
+                    }
+                }
+                Op::Save(stream) => {
+                    if !out.is_id("skipped") {
+                        ck.req(n, changed(&before, &doc).is_empty(), || "save changed an object".into());
+                        ck.req(n, doc.max_id >= before.max_id, || "save moved max_id backwards".into());
+                        let touched: &[&[u8]] = if *stream { &[b"Type", b"Size", b"W", b"Index", b"Filter", b"Length"] } else { &[b"Size"] };
+                        let rest = |d: &Document| -> Vec<(Vec<u8>, Object)> { d.trailer.iter().filter(|(k, _)| !touched.contains(&k.as_slice())).map(|(k, v)| (k.clone(), v.clone())).collect() };
+                        ck.req(n, rest(&before) == rest(&doc), || "save changed a trailer entry that is not cross-reference bookkeeping".into());
+                        if out.is_id("ok") {
+                            ck.req(n, doc.max_id == before.max_id + if *stream { 1 } else { 0 }, || "save: max_id is not the old one (+1 for the cross-reference stream object)".into());
+                            ck.req(n, doc.trailer.get(b"Size").and_then(Object::as_i64).ok() == Some(doc.max_id as i64 + 1), || "save: trailer Size is not max_id + 1".into());
+                        } else if !panicked {
+                            ck.req(n, before.trailer == doc.trailer && before.max_id == doc.max_id, || "a failed save changed the document".into());
+                        }
+                    }
+                }
                 Op::New | Op::Add(_) => {
                     if panicked {
                         ck.req(n, before.max_id == u32::MAX, || "allocation panicked below u32::MAX".into());
@@ -622,7 +767,7 @@ fn main() {
             if inv_before && in_domain {
                 ck.req(n, alloc_inv(&doc), || format!("max_id {} is below an object number in use", doc.max_id));
             }
-            let dump = doc_to_sx(&doc);
+            let dump = state_to_sx(&doc);
             let txt = dump.print();
             trace.push(Sx::L(vec![out, if txt == prev { Sx::id("=") } else { dump }]));
             prev = txt;
@@ -688,6 +833,24 @@ fn apply(doc: &mut Document, op: &Op) -> Sx {
         Op::Content(p) => match doc.get_page_content(*p) {
             Ok(b) => Sx::tagged("bytes", vec![Sx::bytes(&b)]),
             Err(_) => Sx::tagged("bytes", vec![Sx::id("none")]),
+        },
+        Op::Save(stream) => {
+            if doc.max_id > SAVE_MAX {
+                return Sx::id("skipped");
+            }
+            doc.reference_table.cross_reference_type = if *stream { XrefType::CrossReferenceStream } else { XrefType::CrossReferenceTable };
+            let mut sink: Vec<u8> = Vec::new();
+            match doc.save_to(&mut sink) {
+                Ok(()) => Sx::id("ok"),
+                Err(_) => Sx::id("err"),
+            }
+        }
+        Op::Bm { title, format, color, page, parent } => {
+            Sx::tagged("num", vec![Sx::num(doc.add_bookmark(Bookmark::new(title.clone(), *color, *format, *page), *parent))])
+        }
+        Op::Outline => match doc.build_outline() {
+            Some(id) => Sx::tagged("root", vec![oid_to_sx(id)]),
+            None => Sx::tagged("root", vec![Sx::id("none")]),
         },
     }
 }
